@@ -1,5 +1,5 @@
 import CollectionsC.Properties.C01Sized
-import CollectionsC.Proofs.ArraySized7
+import CollectionsC.Proofs.ArraySized8
 /-! # C07 (sized array part) — iterators traverse completely and in order; one-step mutation is safe
 
 Statements only.  The model iterator is the C struct (`index`, `last_removed`); the ideal cursor
@@ -48,9 +48,35 @@ theorem program_refines (it : Iter) (a : ArraySized) (c : Spec.SSeq.Cursor Elem)
     (hw : ∀ cmd ∈ cmds, IterCmdWF a.dataLen cmd) (hrel : IterRel it a c) :
     (iterRun it a cmds m).1 = (c.run cmds (iterRefusals it a cmds m)).1 ∧
     IterRel (iterRun it a cmds m).2.1 (iterRun it a cmds m).2.2.1 (c.run cmds (iterRefusals it a cmds m)).2 ∧
-    (iterRun it a cmds m).2.2.1.Inv :=
-  ⟨(iterRun_refines cmds it a c m h hw hrel).1, (iterRun_refines cmds it a c m h hw hrel).2.1,
-   (iterRun_refines cmds it a c m h hw hrel).2.2.1⟩
+    (iterRun it a cmds m).2.2.1.Inv ∧ MemSame a.triple m (iterRun it a cmds m).2.2.2 :=
+  iterRun_refines cmds it a c m h hw hrel
+
+/-- **traversal as a run**: `size` calls of `next` on a fresh iterator yield exactly the content, in
+order, each with `CC_OK`; the array is untouched -/
+theorem traversal_run (a : ArraySized) (m : Mem) (h : a.Inv) :
+    (iterRun {} a (List.replicate a.abs.length .next) m).1.map (·.val) = a.abs.map some ∧
+    (iterRun {} a (List.replicate a.abs.length .next) m).2.2.1.abs = a.abs := by
+  have hw : ∀ cmd ∈ List.replicate a.abs.length (Spec.SSeq.IterCmd.next : Spec.SSeq.IterCmd Elem),
+      IterCmdWF a.dataLen cmd := by
+    intro cmd hc; rw [(List.mem_replicate.1 hc).2]; trivial
+  obtain ⟨r1, r2, _⟩ := iterRun_refines _ {} a (Spec.SSeq.Cursor.start a.abs) m h hw (iterInit_rel a)
+  have gen : ∀ (t d : List Elem) (rs : List (Option Stat)),
+      (({ done := d, todo := t, removed := false } : Spec.SSeq.Cursor Elem).run (List.replicate t.length .next) rs).1.map (·.val)
+        = t.map some ∧
+      (({ done := d, todo := t, removed := false } : Spec.SSeq.Cursor Elem).run (List.replicate t.length .next) rs).2.content
+        = d ++ t := by
+    intro t
+    induction t with
+    | nil => intro d rs; exact ⟨rfl, by simp [Spec.SSeq.Cursor.run, Spec.SSeq.Cursor.content]⟩
+    | cons x t ih =>
+      intro d rs
+      have := ih (d ++ [x]) rs.tail
+      simp only [List.length_cons, List.replicate_succ, Spec.SSeq.Cursor.run, Spec.SSeq.Cursor.step,
+        Spec.SSeq.Cursor.next, List.map_cons]
+      exact ⟨by rw [this.1], by rw [this.2]; simp⟩
+  have g := gen a.abs [] (iterRefusals {} a (List.replicate a.abs.length .next) m)
+  refine ⟨by rw [r1]; exact g.1, ?_⟩
+  rw [r2.1]; exact g.2
 
 /-- a program starts from the ideal cursor at the beginning of the content -/
 theorem fresh_iterator (a : ArraySized) : IterRel {} a (Spec.SSeq.Cursor.start a.abs) := iterInit_rel a
@@ -97,5 +123,12 @@ theorem spec_zip_stops_at_shorter (c : Spec.SSeq.ZipCursor Elem) (h : c.todo1 = 
   rcases h with h | h
   · rw [h]
   · rw [h]; cases c.todo1 <;> rfl
+
+/-! Non-vacuity: a program `next, remove, next, add, next, index` on a concrete 3-record array. -/
+example :
+    let a : ArraySized := { dataLen := 1, size := 3, capacity := 3, grow := fun c => 2 * c, buf := [1, 2, 3] }
+    a.Inv ∧ IterRel {} a (Spec.SSeq.Cursor.start a.abs) ∧
+    (iterRun {} a [.next, .remove, .next, .add [9], .next, .index] { live := 2 }).2.2.1.abs = [[2], [9], [3]] :=
+  ⟨by decide, iterInit_rel _, by decide⟩
 
 end CC.Properties.C07Sized
